@@ -31,7 +31,9 @@ call_project_attributes([Module|Modules], QueryVars, AttrVars) :-
     call_project_attributes(Modules, QueryVars, AttrVars).
 
 '$print_attribute_goals_exception'(Module, E) :-
-    (  E = error('$interrupt_thrown', _)
+    (  (  E = error('$interrupt_thrown', _)
+       ;  E = error(resource_error(_), _)
+       )
     -> throw(E)
     ;  E = error(evaluation_error((Module:attribute_goals)/3), attribute_goals/3)
     ;  E = error(existence_error(procedure, attribute_goals/3), attribute_goals/3)
